@@ -6,7 +6,7 @@
    unchanged code; it is proved under "trigger flag = false" and refuted by a witness otherwise. *)
 From Coq Require Import Permutation.
 From OFGA Require Import Base.Bytes Store.ReadSpec Store.MemoryRead Store.SqlRead Store.ReadFlags
-  Store.ReadProofs.
+  Store.ReadProofs Store.IterModel Store.IterProofs.
 
 (* ---- Read / ReadPage ---- *)
 
@@ -181,3 +181,44 @@ Print Assumptions named_condition_unchanged.
 Example cond_ctx_nonvacuous :
   In w_t2 (memory_read w_store (mkRF OAny [] UAny [])) /\ t_cond w_t2 = b_c1 /\ t_ctx w_t2 = 7.
 Proof. vm_compute. auto 10. Qed.
+
+(* ---- large ObjectIDs sets ---- *)
+
+(* ReadStartingWithUser depends on ObjectIDs only through the membership of the STORED object ids
+   and through its emptiness: the driver hands the oracle this reduced set for sets of 99..1500 ids *)
+Theorem rswu_object_ids_reduction : forall s f o',
+  oids_equiv s (sf_oids f) o' ->
+  rswu_spec s f = rswu_spec s (with_oids f o') /\
+  memory_rswu s f = memory_rswu s (with_oids f o') /\
+  sql_rswu s f = sql_rswu s (with_oids f o') /\
+  flag_rswu_empty_object_ids f = flag_rswu_empty_object_ids (with_oids f o').
+Proof. exact ReadProofs.rswu_oids_equiv. Qed.
+Print Assumptions rswu_object_ids_reduction.
+
+Example rswu_object_ids_reduction_nonvacuous :
+  oids_equiv w_store (Some [b_2; [33; 48]; [33; 49]; [126; 48]; [126; 49]]) (Some [b_2; [33; 48]]) /\
+  rswu_spec w_store (mkSF b_doc b_viewer [mkUser b_user star []; mkUser b_user b_a []] (Some [b_2; [33; 48]]) []) = [w_t4].
+Proof. exact ReadProofs.rswu_oids_equiv_nonvacuous. Qed.
+
+(* ---- the iterators the reads return: Head / Next schedules ---- *)
+
+(* on both iterators every schedule of Head and Next calls observes what the reference observes:
+   Head shows the first remaining item without consuming it (so it equals the following Next and
+   is idempotent), Next consumes it *)
+Theorem iter_schedule : forall (A : Type) (l : list A) ops,
+  run A (mem_step A) l ops = ref_run A l ops /\
+  run A (sql_step A) (mkIt A None l) ops = ref_run A l ops.
+Proof. exact IterProofs.iter_schedule. Qed.
+Print Assumptions iter_schedule.
+
+(* whatever the schedule, the Next calls hand out the result list itself, in order *)
+Theorem iter_nexts_any_schedule : forall (A : Type) (l : list A) ops,
+  nexts A ops (run A (mem_step A) l ops) = firstn (count_next ops) l /\
+  nexts A ops (run A (sql_step A) (mkIt A None l) ops) = firstn (count_next ops) l.
+Proof. exact IterProofs.iter_nexts_any_schedule. Qed.
+Print Assumptions iter_nexts_any_schedule.
+
+Example iter_schedule_nonvacuous :
+  run N (sql_step N) (mkIt N None [7; 8; 9]) [OpHead; OpHead; OpNext; OpNext; OpHead; OpNext; OpHead; OpNext]
+  = [Some 7; Some 7; Some 7; Some 8; Some 9; Some 9; None; None].
+Proof. vm_compute. reflexivity. Qed.
